@@ -249,9 +249,18 @@ def run_gk(spec, res):
         events = []
         case = {"part": "GK", "seed": spec["seed"], "run": r, "delta0": d0, "t0": t}
         last_adm = None
+        t_fwd = t
         for i in range(rng.randrange(5, 150)):
-            kind = rng.choices(("arrive", "delta", "query", "burst"), (5, 2, 2, 1))[0]
+            kind = rng.choices(("arrive", "delta", "query", "burst", "late"), (5, 2, 2, 1, 1))[0]
+            t = t_fwd
             t += rng.choice((0.0, 1e-4, 0.001, 0.01, 0.0249, 0.025, 0.0251, 0.1, 0.5, 1.0, 1.2, rng.uniform(0, 0.3)))
+            t_fwd = t
+            if kind == "late":
+                # a caller whose time stamp is earlier than that of the previous call (time stamp taken before another
+                # thread's admission, or a time source set back): B.1/B.2 decide on the instant alone
+                t = t - rng.choice((1e-4, 0.001, 0.02, 0.03, 0.5, 5.0))
+                kind = rng.choice(("arrive", "query"))
+                res.count("GK.calls_earlier_than_previous_call")
             if kind in ("arrive", "burst"):
                 t_on = rng.choice((0.0002, 0.0005, 0.001, 0.004, rng.uniform(1e-5, 0.01)))
                 n = 1 if kind == "arrive" else rng.randrange(2, 5)
